@@ -56,6 +56,10 @@ CHECKS = {
    technique="bounded exhaustive lattice enumeration of Keplerian arcs, radar geometries and IOD scenarios (real LambertIOD over a real in-memory DB) against an independent Kepler/FK5 reference",
    text="lambertUniversal, lambertBattin (and lambertGauss on arcs <=30 deg) return the end velocities of every bound Keplerian arc of the lattice (e<=0.7, tof 0.005-0.98 P, both senses, >=5 deg from 0/180/360) and propagating the returned velocity arrives at r2 with the returned v2; radarObs2eciPosition inverts the noise-free radar measurement for ground and space sites; the real LambertIOD on a real in-memory database returns the true state from two noise-free radar observations of a near-circular orbit up to 40 % of a period apart while ignoring other-target, optical, out-of-window and unordered rows; the adaptive filter's Lambert entry points produce impulses that reach the observed point.",
    note="closed-form two-body oracle (verif/oracles/c20_ref.py) and the FK5/geodesy oracle of C04; whole-second JD round trips (C05); hyperbolic/parabolic transfers and the exact 180 deg singularity out of scope"),
+ "C02": dict(level="model_checking", design="§3 C02",
+   technique="bounded exhaustive enumeration of sensor/host/mask/FoV/slew/range/phenomenology lattices on the real collectObservations pipeline against an independent failing-constraint oracle (verif/oracles/c02_geom.py)",
+   text="The real sensor pipeline (all three sensor kinds on ground and space hosts, built with sensorFactory / SensingAgent.fromConfig on a real clock) is driven over complete lattices (12k tasked attempts quick, 90k thorough) incl. every mask end, the north seam, the zenith, FoV edges, slew/range/radar/illumination/magnitude/exclusion/limb thresholds, background sets of 0-2 targets and noise vectors 0, +-e_i. Every returned record is compared with an independently recomputed failing-constraint set and geometry: no observation (tasked or serendipitous) violates a constraint, each tasked attempt yields exactly one primary record (observation xor miss), miss reasons are true, measurements equal the geometry exactly and differ by exactly sqrtm(R) e_i under enumerated noise; Measurement/Observation classes, predictObservation, asyncExecuteTasking and the stored rows agree with the same oracle.",
+   note="library eci2ecef rotation and Sun.getPosition trusted (C04, C13); ecef2lla accurate to 1e-10 rad; spherical Earth of the equatorial radius for line of sight; stated either-way bands (limb/darkness geodetic-vs-geocentric vertical, Sun parallax); tasking-engine bookkeeping is C08's"),
 }
 
 NOT_APPLICABLE = {}
